@@ -1,3 +1,6 @@
+import re
+
+
 def is_leaf(element):
     """
     Return True if the element is a leaf, False otherwise. The element is
@@ -8,3 +11,14 @@ def is_leaf(element):
     if not name or name == 'br':
         return True
     return False
+
+
+def unwrap_source_lines(text):
+    """
+    Text that is wrapped over several source lines in an XML/HTML document is
+    a single run of text: drop the trailing newline + indentation and turn
+    every inner line wrap (with its indentation) into a single space. The
+    leading newline + indentation is left for the caller to strip.
+    """
+    text = re.sub(r"[\n\r]+\s*$", "", text)
+    return re.sub(r"(?<=[^\n\r])[ \t]*[\n\r]+\s*", " ", text)
